@@ -85,8 +85,16 @@ def timeout_oracle(fields, impl, model):
     tags = []
     for i in range(len(model) - 1):
         allowed = model[1 + i].split(b"|")
-        got, el = impl[1 + 2 * i], int(impl[2 + 2 * i])
+        got = impl[1 + 2 * i]
+        el, _, real = impl[2 + 2 * i].partition(b"/")
+        el, real = int(el), int(real or b"-1")
         d = int(steps[3 * i])
+        d2 = steps[3 * i + 1]
+        dmin = min(d, int(d2)) if d2 != b"-" else d
+        if got not in allowed and got in (b"alt", b"alt2") and (real < 0 or real >= dmin - 45):
+            # the arranged duration was stretched by machine load up to (or beyond) the timeout: the
+            # wrapped action really had not finished in time, so the alternative is the right answer
+            continue
         if got not in allowed:
             tags.append(("wrong-outcome", b"invocation %d: got %s, allowed %s" % (i, got, model[1 + i])))
             break
@@ -125,6 +133,13 @@ def split_oracle(fields, impl, model):
     except (ValueError, IndexError):
         return [("malformed", b"")]
     tags = []
+    # the wrapped action's values and no-space characters, from the case: flags wb text nospace <values>
+    try:
+        ns = fields[3].decode("utf-8", "replace")
+        nv = int(fields[4])
+        vals = fields[5:5 + nv]
+    except (ValueError, IndexError):
+        ns, vals = "", []
     for i in range(k):
         cand, p, r = rest[3 * i:3 * i + 3]
         if p != b"1":
@@ -133,6 +148,13 @@ def split_oracle(fields, impl, model):
         if r != b"1":
             tags.append(("relex-differs", cand))
             break
+        if len(vals) == k:
+            v = vals[i].decode("utf-8", "replace")
+            nospace = "*" in ns or (v != "" and v[-1] in ns)
+            if cand.endswith(b" ") == nospace:
+                # a blank follows the value unless no-space applies to the VALUE (not to its quoted form)
+                tags.append(("blank-rule", cand))
+                break
     return tags
 
 
@@ -221,7 +243,8 @@ def pred_names_subcommand_after_flag(f):
     """an offered sub-command name that cobra does not dispatch to because of a flag word typed before it"""
     d = f.get("detail", b"")
     return len(f["impl"]) > 1 and f["impl"][1] == b"subs" and any(len(x) > 1 and x.startswith(b"-") for x in _names_words(f)) and \
-        (b":rejected:unknown flag" in d or b":rejected:unknown shorthand" in d or b":dispatched-to-" in d or b":rejected:flag needs an argument" in d)
+        (b":rejected:unknown flag" in d or b":rejected:unknown shorthand" in d or b":dispatched-to-" in d or b":rejected:flag needs an argument" in d
+         or b":rejected:if any flags in the group" in d or b":rejected:invalid argument" in d)
 
 
 def _bridge_words(f):
@@ -574,7 +597,9 @@ def pred_split_nonascii_text(f):
 
 def pred_split_redirect_wordbreak(f):
     import re
-    return b"P" in f["case"][0] and re.search(rb"[<>][&<>]*\s*[=:(@]", f["case"][2]) is not None
+    # SplitP; a redirection operator whose target (possibly empty, possibly after blanks) contains or is adjoined by
+    # another wordbreak character or a comment: FilterRedirects and Words() then cut the line differently
+    return b"P" in f["case"][0] and re.search(rb"[<>][^\s]*\s*\S*[=:(@<>;|&#\"']", f["case"][2]) is not None
 
 
 def pred_files_seg_dotdot(f):
